@@ -245,7 +245,7 @@ def check_unify(pi, tier, twin=False):
         if other is not pat:
             targets.append((f"other{oj}", subst(other, substitutions()[0][1]), False))
     for tname, target, must_match in targets:
-        cand_sets = [CAND] + ([sorted(used)] if used and sorted(used) != CAND else [])
+        cand_sets = [CAND] + ([sorted(used)] if used and sorted(used) != CAND else []) + [[], frozenset()]
         if tier == "thorough" and not twin:
             cand_sets += [list(cs) for k in range(0, len(used)) for cs in itertools.combinations(sorted(used), k)]
         for cands in cand_sets:
@@ -300,6 +300,9 @@ def check_matchpy_roundtrip():
         p.LogicalOr((p.Comparison(x, ">=", y), p.Comparison(x, "!=", 1))), p.Subscript(arr, (x,)), p.Subscript(arr, x),
         S(x, 2.5, P(x, x, y)), p.Call(f, ()), p.If(p.Comparison(x, "<=", y), S(x, 1), P(y, 2)),
         S(S(x, y), 1), P(x, P(y, 2)), p.Power(S(x, S(y, 1)), 2), p.Call(f, (P(P(x, y), x),)),
+        # neutral / absorbing constants and one-operand nodes written explicitly
+        S(x, 0), S(0, x, y), P(x, 1), P(1, x, y), P(x, 0), P(0, x, y), S(x), P(x), S(P(x, 1), 0), p.Call(f, (S(x, 0), P(1, y))),
+        S(x, 0.0), P(x, 1.0), p.Power(x, 1), p.Power(x, 0), p.Quotient(x, 1), S(x, -1), P(-1, x),
     ]
     for e in exprs:
         res.path_assertions += 1
